@@ -170,6 +170,9 @@ def configs(tier, seed):
                 continue
             out.append({'model': model, 'm': m, 'n': n, 'variant': 'full', 'group': 'kG0:%s' % model})
         out.append({'model': model, 'm': 2, 'n': 2, 'variant': 'y1y2', 'group': 'kG0y1y2:%s' % model})
+        # four terms along one direction: all four boundary flags (1t, 1r, 2t, 2r) of that direction enter the integrals
+        out.append({'model': model, 'm': 1, 'n': 4, 'variant': 'y1y2', 'group': 'kG0y1y2:%s' % model, 's': 1 if model == 'kpanel' else 2})
+        out.append({'model': model, 'm': 4, 'n': 1, 'variant': 'y1y2', 'group': 'kG0y1y2:%s' % model, 's': 1 if model == 'kpanel' else 2})
         if model in ('cpanel', 'kpanel'):
             out.append({'model': model, 'm': 2, 'n': 2, 'variant': 'full', 'after_redefinition': True, 'group': 'kG0-after-redefinition:%s' % model, 's': 1 if model == 'kpanel' else 2})
         out.append({'model': model, 'm': 2, 'n': 2, 'variant': 'offset', 'off': 2 + seed % 5, 'group': 'placement:%s' % model})
